@@ -476,6 +476,9 @@ func runC05(c *eng.Ctx) {
 		c.Check(bad == "", "Truncate holds the log lock throughout", p.Pos(fn.Pos()), "every segment / epoch-cache operation runs with l.mu write-held", "Truncate performs "+bad+" without the log's write lock: appends or cleans can interleave with a half-truncated log")
 	}
 	c.Floor(1)
+	// ---- R14.6 the corrupt-index error reaches setupIndex's identity test unwrapped (else open fails instead of rebuilding)
+	nSent := ruleSentinelIdentity(c, "R14.6", []string{cl + "(*segment).setupIndex"}, "a corrupt index is no longer rebuilt: opening the log fails, or the segment keeps an index that does not describe its log")
+	c.Check(nSent >= 1, "setupIndex tells a corrupt index apart", "", "identity comparison with errIndexCorrupt found", "setupIndex no longer recognises a corrupt index")
 }
 
 // appendedTo: fn stores append(<field>, v) (possibly after conversion) into the field.
